@@ -96,6 +96,11 @@ CcSweep == IF Small THEN {Line("jnl", <<Imm(FALSE, <<5,0,0,0>>)>>), Line("setnge
         \cup {Line(m, <<o>>) : m \in SetCc, o \in {Rg("r8", 3), M3}}
         \cup {Line(m, <<Rg(r, 1), o>>) : m \in CcMov, r \in {"r32"}, o \in {Rg("r32", 3), M1}}
         \cup {Line(m, <<Rg("r16", 1), Rg("r16", 3)>>) : m \in CcMov}
+\* every segment override on address forms whose default segment differs (esp / ebp as base, ebp as index only, no base)
+SegSweep == IF Small THEN {Line("mov", <<EAX, Mem(32, "ss", 3, 5, 2, Z4, "")>>)}
+   ELSE {Line("mov", <<EAX, Mem(32, sg, b, x[1], x[2], d, "")>>) : sg \in {"ss", "ds", "cs", "es", "gs"}, b \in {-1, 3, 4, 5},
+                                                                    x \in {<<-1, 1>>, <<5, 1>>, <<5, 2>>, <<6, 4>>}, d \in {Z4, D(4)}}
+        \cup {Line("add", <<Mem(8, sg, b, 5, 4, D(4), ""), I1>>) : sg \in {"ss", "ds"}, b \in {-1, 3, 5}}
 ImmDst == {EAX, Rg("r32", 3), Rg("r16", 0), Rg("r16", 1), Rg("r8", 0), Rg("r8", 3), M1, M4, M3, M2}
 ImmAll == ImmVals \cup {Sym("foo")}
 ImmSweep == IF Small THEN {Line("add", <<dd, v>>) : dd \in {EAX, Rg("r8", 3), M4}, v \in ImmVals}
@@ -184,6 +189,7 @@ Init == /\ \/ /\ ins \in {Line(m, <<>>) : m \in Mnems} /\ grow = TRUE /\ src = "
            \/ /\ ins \in MemSweep /\ grow = FALSE /\ src = "mem"
            \/ /\ ins \in ImmSweep /\ grow = FALSE /\ src = "imm"
            \/ /\ ins \in CcSweep /\ grow = FALSE /\ src = "cc"
+           \/ /\ ins \in SegSweep /\ grow = FALSE /\ src = "seg"
         /\ plaus = PlausWhy(ins)
 MaxLen(m) == IF MaxAr(m) >= 3 THEN 3 ELSE MaxAr(m) + 1
 AddOperand == /\ grow /\ Len(ins.ops) < MaxLen(ins.mn)
